@@ -80,6 +80,7 @@ fn main() {
     let cli = parse();
     let code = match cli.prop.as_str() {
         "C01" => dispatch::<props::c01::C01>(&cli),
+        "C02" => dispatch::<props::c02::C02>(&cli),
         "C03" => dispatch::<props::c03::C03>(&cli),
         "C04" => dispatch::<props::c04::C04>(&cli),
         "C05" => dispatch::<props::c05::C05>(&cli),
